@@ -2,7 +2,8 @@
    read_col v1/v2 call shapes, schema level computation, map zipping).  Values are naturals
    (the harness maps every physical value to its index in a per-case value table). *)
 From Coq Require Import NArith ZArith List String Bool.
-From Pq Require Import Base.Bytes Format.Nested Impl.CAssemble Impl.CAssembleFixed Proofs.CAssembleProofs Extract.Sx.
+From Pq Require Import Base.Bytes Format.Nested Impl.CAssemble Impl.CAssembleFixed Proofs.CAssembleProofs
+  Proofs.CAssembleV2Proofs Extract.Sx.
 Import ListNotations.
 Open Scope string_scope.
 
@@ -172,8 +173,20 @@ Definition h_run_v1_fx (a : list sx) : sx :=
   | _ => err "arity"
   end.
 
+(* (v2_guard ro eo pages-with-num_rows) -> (pages_aligned, all pages v2_cut_ok): hypotheses of C15_v2_pages_whole *)
+Definition h_v2_guard (a : list sx) : sx :=
+  match a with
+  | [ro; eo; pages] =>
+    match as_bool ro, as_bool eo, as_list_of (as_pair as_page as_nat) pages with
+    | Some ro, Some eo, Some pages =>
+      SL [sbool (pages_aligned (mkShape ro eo) (map fst pages)); sbool (forallb (v2_cut_ok N) pages)]
+    | _, _, _ => err "args"
+    end
+  | _ => err "arity"
+  end.
+
 Definition table : list (string * handler) :=
   [("shred", h_shred); ("assemble_spec", h_assemble_spec); ("assemble_page", h_assemble_page);
    ("run_v1", h_run_v1); ("run_v2", h_run_v2); ("sch", h_sch); ("shape_levels", h_shape_levels);
    ("zip_maps", h_zip_maps); ("split_guard", h_split_guard); ("v2_branch", h_v2_branch);
-   ("assemble_page_fx", h_assemble_page_fx); ("run_v1_fx", h_run_v1_fx)].
+   ("assemble_page_fx", h_assemble_page_fx); ("run_v1_fx", h_run_v1_fx); ("v2_guard", h_v2_guard)].
